@@ -1310,6 +1310,14 @@ package graphql
 //@ func fingerprintDocument
 //@   props C06
 //@   nosafety
+// the key covers the WHOLE document (validation judges all of it): every other operation and every fragment
+// definition that was not hashed where it is spread is hashed too
+//@   loop 1 over doc.Definitions
+//@   loop 1 ensures typeis(def, "*ast.OperationDefinition") && as(def, "*ast.OperationDefinition") != op ==> calls("writeSelectionSet") == atloop(1, calls("writeSelectionSet")) + 1 && calls("writeVariableDefs") == atloop(1, calls("writeVariableDefs")) + 1
+//@   loop 1 ensures typeis(def, "*ast.FragmentDefinition") && as(def, "*ast.FragmentDefinition").Name != nil && !(heapatloop(1, w.fragments[as(def, "*ast.FragmentDefinition").Name.Value]) == as(def, "*ast.FragmentDefinition") && heapatloop(1, has(w.visited, as(def, "*ast.FragmentDefinition").Name.Value) && w.visited[as(def, "*ast.FragmentDefinition").Name.Value])) ==> calls("writeSelectionSet") == atloop(1, calls("writeSelectionSet")) + 1
+//@   at call writeSelectionSet#1: assert arg1 == op.SelectionSet
+//@   at call writeSelectionSet#2: assert arg1 == d.SelectionSet
+//@   at call writeSelectionSet#3: assert arg1 == d.SelectionSet
 //@   reads ast.OperationDefinition.Operation, ast.OperationDefinition.VariableDefinitions, ast.OperationDefinition.Directives, ast.OperationDefinition.SelectionSet
 //@   reads ast.VariableDefinition.Variable, ast.VariableDefinition.Type, ast.VariableDefinition.DefaultValue
 //@   reads ast.Field.Alias, ast.Field.Name, ast.Field.Arguments, ast.Field.Directives, ast.Field.SelectionSet
